@@ -72,6 +72,10 @@ func getSessionLocked(key string, c redis.Conn) (*gmqtt.Session, error) {
 	if err != nil {
 		return nil, err
 	}
+	if len(replay) > 0 && replay[0] == nil {
+		// HMGET of a key that does not exist answers nil for every field: there is no such session
+		return nil, nil
+	}
 	sess := &gmqtt.Session{}
 	var connectedAt uint32
 	var will []byte
@@ -115,6 +119,9 @@ func (s *Store) Iterate(fn session.IterateFn) error {
 					sess, err := getSessionLocked(string(vv.([]uint8)), c)
 					if err != nil {
 						return err
+					}
+					if sess == nil {
+						continue
 					}
 					cont := fn(sess)
 					if !cont {
